@@ -212,6 +212,52 @@ def run(res, tier):
                 res.bad("R-LAZY", f"{pname}:{f}", FWD if pname != "mj_inverse" else INV, 0,
                         f"d->{f} is cleared before {ref[f]} in mj_forward but before {mp.get(f)} in {pname}")
 
+    # ------------------------------------------------------------- R-LAZY-SKIP
+    # In every skip variant, a sensor stage that can test a flag must see it cleared within the same call: the flag of a
+    # producer whose inputs are recomputed in that variant must not survive from the previous call.  Reader stage of a flag =
+    # the sensor stage functions (mj_sensorPos/Vel/Acc) whose own stage-specific code tests it (functions of engine_sensor.c
+    # whose name ends in that stage suffix) plus the energy guards of the orchestration functions themselves.
+    res.rule("R-LAZY-SKIP", "in every skipstage variant each lazy flag is cleared before the sensor stage that tests it", floor=8)
+    readers = {}
+    for (tu, name), s_ in acc.items():
+        if not tu.endswith("engine_sensor.c"):
+            continue
+        for suf in ("Pos", "Vel", "Acc"):
+            if name.endswith(suf):
+                for f in s_["reads"]:
+                    readers.setdefault(f, set()).add("mj_sensor" + suf)
+    res.extra["lazy_flag_reader_stages"] = {f: sorted(v) for f, v in readers.items()}
+    variants = {}
+    for sk in ("mjSTAGE_NONE", "mjSTAGE_POS", "mjSTAGE_VEL"):
+        variants[f"mj_forwardSkip({sk})"] = F.flatten(uf.funcs["mj_forwardSkip"], {"skipstage": enum[sk], "skipsensor": 0})
+        variants[f"mj_inverseSkip({sk})"] = FI.flatten(ui.funcs["mj_inverseSkip"], {"skipstage": enum[sk], "skipsensor": 0})
+    variants["mj_step1;mj_step2"] = pipes["mj_step1;mj_step2"]
+    for vname, evs in variants.items():
+        cleared = set()
+        for e in evs:
+            if e[0] == "set" and e[1].startswith("d->flg_") and e[2] == "0":
+                cleared.add(e[1][3:])
+            elif e[0] == "call":
+                cleared |= top_clears(e[1])
+                if e[1].startswith("mj_sensor"):
+                    for f in flags:
+                        if e[1] in readers.get(f, ()):
+                            if f in cleared:
+                                res.ok("R-LAZY-SKIP", f"{vname}:{f}", None)
+                            else:
+                                res.bad("R-LAZY-SKIP", f"{vname}:{f}", INV if "inverse" in vname else FWD, 0,
+                                        f"in {vname}, {e[1]} tests d->{f} but nothing cleared it earlier in this call: data derived "
+                                        f"by the previous call (with other inputs) is reused")
+            # energy guards in the orchestration code
+            for a, _pol in e[-1]:
+                for f in flags:
+                    if f"d->{f}" == a or f"d->{f}" in a.split(" "):
+                        if f in cleared:
+                            res.ok("R-LAZY-SKIP", f"{vname}:{f}:guard", None)
+                        else:
+                            res.bad("R-LAZY-SKIP", f"{vname}:{f}:guard", INV if "inverse" in vname else FWD, 0,
+                                    f"in {vname}, a guard tests d->{f} before any clear in this call")
+
     res.explanation = (
         "Sibling agreement of the monolithic and split pipelines after inlining orchestration functions and constant "
         "propagation (3 integrators), guard agreement of forward/inverse skip stages, mod-set of mj_forward's closure "
